@@ -50,6 +50,12 @@ func (c *msgpackCodec) ReadResponseHeader(r *rpc.Response) error {
 }
 
 func (c *msgpackCodec) ReadResponseBody(body any) error {
+	if body == nil {
+		// net/rpc asks to discard the body, this is the case when the response
+		// carries an error. It has to be skipped, a failed read here shuts the
+		// whole connection down and fails every other call in flight on it.
+		return c.dec.Skip()
+	}
 	return c.dec.Decode(body)
 }
 
@@ -60,6 +66,10 @@ func (c *msgpackCodec) ReadRequestHeader(r *rpc.Request) error {
 }
 
 func (c *msgpackCodec) ReadRequestBody(body any) error {
+	if body == nil {
+		// net/rpc asks to discard the body of a request it cannot serve
+		return c.dec.Skip()
+	}
 	return c.dec.Decode(body)
 }
 
